@@ -101,12 +101,23 @@ theorem step_force (ok : Nat → Nat → Prop) (st : Array (Mut R)) (ci : Nat) (
 
 /-! ### one `resolve_contact`, one voxel entry, one node -/
 
-/-- the effects of one `resolve_contact` on a visited `ok` slot `(ci, ni)` and a face of another cell `cj` with `ok` corners -/
+/-- `resolve_contact` couples only when both cells are epithelial (type id 0) -/
+theorem rule1_coupled (fn : Fn R) (P : CParams R) (c1 c2 : CCell R) (n1 : CNode R) (f : CFace R) (a b c : CNode R)
+    (h : (rule1 fn P c1 c2 n1 f a b c).coupled = true) : c1.type = 0 ∧ c2.type = 0 := by
+  unfold rule1 at h
+  split at h
+  · assumption
+  · cases h
+
+/-- the effects of one `resolve_contact`: when it couples, the visited slot `(ci, ni)` and the corners of the face of the other
+    cell `cj` are `ok` -/
 theorem applyOut_step (ok : Nat → Nat → Prop) (st : Array (Mut R)) (ci ni cj : Nat) (f : Forces.Face) (o : PairOut R)
-    (h1 : ok ci ni) (hf : ok cj f.a ∧ ok cj f.b ∧ ok cj f.c) (hne : cj ≠ ci) : Step ok st (applyOut st ci ni cj f o) := by
+    (h : o.coupled = true → ok ci ni ∧ (ok cj f.a ∧ ok cj f.b ∧ ok cj f.c)) (hne : cj ≠ ci) :
+    Step ok st (applyOut st ci ni cj f o) := by
   unfold applyOut
   by_cases hc : o.coupled = true
   · rw [if_pos hc]
+    obtain ⟨h1, hf⟩ := h hc
     have hn2 : ok cj (if o.idx = 1 then f.a else if o.idx = 2 then f.b else f.c) := by
       split_ifs
       · exact hf.1
@@ -119,12 +130,13 @@ theorem applyOut_step (ok : Nat → Nat → Prop) (st : Array (Mut R)) (ci ni cj
         ((F.modify f.a (fun v => v + o.forces.f1)).modify f.b (fun v => v + o.forces.f2)).modify f.c (fun v => v + o.forces.f3)).trans
       (step_force ok _ ci fun F => F.modify ni (fun v => v + o.forces.fn))
 
-/-- the faces of the global face list have `ok` corners -/
+/-- the faces of the epithelial cells of the global face list have `ok` corners -/
 def FacesOk (ok : Nat → Nat → Prop) (geo : Array (Geo R)) : Prop :=
-  ∀ (cj : Nat) (g : Geo R) (fj : Nat) (f : Forces.Face), geo[cj]? = some g → g.faces[fj]? = some f → ok cj f.a ∧ ok cj f.b ∧ ok cj f.c
+  ∀ (cj : Nat) (g : Geo R) (fj : Nat) (f : Forces.Face), geo[cj]? = some g → g.faces[fj]? = some f → g.k.kind = 0 →
+    ok cj f.a ∧ ok cj f.b ∧ ok cj f.c
 
 theorem pairStep_step (ok : Nat → Nat → Prop) (fn : Fn R) (P : CParams R) (geo : Array (Geo R)) (gf : Array (Nat × Nat))
-    (ci ni : Nat) (st : Array (Mut R)) (gid : Nat) (h1 : ok ci ni) (hF : FacesOk ok geo)
+    (ci ni : Nat) (st : Array (Mut R)) (gid : Nat) (h1 : ∀ g1, geo[ci]? = some g1 → g1.k.kind = 0 → ok ci ni) (hF : FacesOk ok geo)
     (hne : ∀ q, gf[gid]? = some q → q.1 ≠ ci) : Step ok st (pairStep fn P geo gf ci ni st gid) := by
   unfold pairStep
   cases hq : gf[gid]? with
@@ -144,12 +156,14 @@ theorem pairStep_step (ok : Nat → Nat → Prop) (fn : Fn R) (P : CParams R) (g
         | some f =>
           dsimp only
           split
-          · exact applyOut_step ok st ci ni q.1 f _ h1 (hF q.1 g2 q.2 f hg2 hf) (hne q hq)
+          · refine applyOut_step ok st ci ni q.1 f _ (fun hcp => ?_) (hne q hq)
+            obtain ⟨t1, t2⟩ := rule1_coupled _ _ _ _ _ _ _ _ _ hcp
+            exact ⟨h1 g1 hg1 t1, hF q.1 g2 q.2 f hg2 hf t2⟩
           · exact Step.refl ok st
 
 theorem nodeSearch_step (ok : Nat → Nat → Prop) (fn : Fn R) (P : CParams R) (geo : Array (Geo R)) (gf : Array (Nat × Nat))
-    (cand : Nat → Nat → List Nat) (st : Array (Mut R)) (k : Nat × Nat) (h1 : ok k.1 k.2) (hF : FacesOk ok geo)
-    (hne : ∀ gid ∈ cand k.1 k.2, ∀ q, gf[gid]? = some q → q.1 ≠ k.1) :
+    (cand : Nat → Nat → List Nat) (st : Array (Mut R)) (k : Nat × Nat) (h1 : ∀ g1, geo[k.1]? = some g1 → g1.k.kind = 0 → ok k.1 k.2)
+    (hF : FacesOk ok geo) (hne : ∀ gid ∈ cand k.1 k.2, ∀ q, gf[gid]? = some q → q.1 ≠ k.1) :
     Step ok st (nodeSearch fn P geo gf cand st k) := by
   unfold nodeSearch
   cases geo[k.1]? with
@@ -229,13 +243,14 @@ theorem mem_slotsFrom : ∀ (lens : List Nat) (i : Nat) (x : Nat × Nat), x ∈ 
 
 /-! ### Model/Tissue.lean: every node slot in use -/
 
-/-- the slot exists -/
-def okT (cells : List (Cell R)) (ci ni : Nat) : Prop := ∃ c, cells[ci]? = some c ∧ ni < c.nn
+/-- the slot exists, in an epithelial cell -/
+def okT (cells : List (Cell R)) (ci ni : Nat) : Prop := ∃ c, cells[ci]? = some c ∧ ni < c.nn ∧ c.k.kind = 0
 
 /-- the corners of every face are node slots of its cell (part of `Tissue.cellWf`) -/
 def FacesInRange (cells : List (Cell R)) : Prop := ∀ c ∈ cells, ∀ f ∈ c.faces, f.a < c.nn ∧ f.b < c.nn ∧ f.c < c.nn
 
-theorem slotOrder_ok (cells : List (Cell R)) (k : Nat × Nat) (hk : k ∈ slotOrder cells) : okT cells k.1 k.2 := by
+theorem slotOrder_ok (cells : List (Cell R)) (k : Nat × Nat) (hk : k ∈ slotOrder cells) :
+    ∃ c, cells[k.1]? = some c ∧ k.2 < c.nn := by
   obtain ⟨a, n, ha, h1, h2⟩ := mem_slotsFrom _ 0 k hk
   rw [List.getElem?_map] at ha
   have : k.1 = a := by omega
@@ -245,7 +260,7 @@ theorem slotOrder_ok (cells : List (Cell R)) (k : Nat × Nat) (hk : k ∈ slotOr
   | some c =>
     rw [hc] at ha
     simp only [Option.map_some, Option.some.injEq] at ha
-    exact ⟨c, hc, ha ▸ h2⟩
+    exact ⟨c, rfl, ha ▸ h2⟩
 
 theorem facesOk_T (cells : List (Cell R)) (h : FacesInRange cells) : FacesOk (okT cells) (cells.map Cell.geo).toArray := by
   intro cj g fj f hg hf
@@ -261,7 +276,13 @@ theorem facesOk_T (cells : List (Cell R)) (h : FacesInRange cells) : FacesOk (ok
       rw [this, List.getElem?_toArray] at hf
       exact List.mem_of_getElem? hf
     obtain ⟨h1, h2, h3⟩ := h c (List.mem_of_getElem? hc) f hmem
-    exact ⟨⟨c, hc, h1⟩, ⟨c, hc, h2⟩, ⟨c, hc, h3⟩⟩
+    intro hk0
+    exact ⟨⟨c, hc, h1, hk0⟩, ⟨c, hc, h2, hk0⟩, ⟨c, hc, h3, hk0⟩⟩
+
+theorem geo_kind (cells : List (Cell R)) (ci : Nat) (c : Cell R) (g : Geo R) (hc : cells[ci]? = some c)
+    (hg : (cells.map Cell.geo).toArray[ci]? = some g) : g.k = c.k := by
+  rw [List.getElem?_toArray, List.getElem?_map, hc, Option.map_some, Option.some.injEq] at hg
+  rw [← hg]; rfl
 
 /-- **the whole search of Model/Tissue.lean is a `Step`** from the reset table -/
 theorem contactSearch_step (fn : Fn R) (K : Consts R) (cells : List (Cell R)) (hF : FacesInRange cells) :
@@ -270,8 +291,9 @@ theorem contactSearch_step (fn : Fn R) (K : Consts R) (cells : List (Cell R)) (h
   dsimp only
   apply step_foldl
   intro k hk s
-  exact nodeSearch_step _ fn _ _ _ _ s k (slotOrder_ok cells k hk) (facesOk_T cells hF)
-    (fun gid hg q hq => gridCandidates_other fn K cells k.1 k.2 gid hg q hq)
+  obtain ⟨c, hc, hlt⟩ := slotOrder_ok cells k hk
+  exact nodeSearch_step _ fn _ _ _ _ s k (fun g1 hg1 hk0 => ⟨c, hc, hlt, by rw [← geo_kind cells k.1 c g1 hc hg1]; exact hk0⟩)
+    (facesOk_T cells hF) (fun gid hg q hq => gridCandidates_other fn K cells k.1 k.2 gid hg q hq)
 
 theorem coupOf_reset (K : Consts R) (cells : List (Cell R)) (ci ni : Nat) :
     coupOf (cells.map (resetMut K)).toArray ci ni = none := by
@@ -330,15 +352,25 @@ theorem get_toPop_writeMut (cells : List (Cell R)) (st : Array (Mut R)) (hs : st
 theorem size_reset (K : Consts R) (cells : List (Cell R)) : (cells.map (resetMut K)).toArray.size = cells.length := by
   simp only [List.size_toArray, List.length_map]
 
-/-- **what the modelled search hands to the tail loops (Model/Tissue.lean)**: every coupling in the table names an existing
-    slot of ANOTHER cell -/
-theorem searchTable_T (fn : Fn R) (K : Consts R) (cells : List (Cell R)) (hF : FacesInRange cells) (k j : Nat × Nat)
-    (n : Coupling.CNode R) (hk : Coupling.get (toPop (writeMut cells (contactSearch fn K cells))) k = some n)
-    (hc : n.coup = some j) :
-    ∃ m : Coupling.CNode R, Coupling.get (toPop (writeMut cells (contactSearch fn K cells))) j = some m ∧ m.used = true ∧
-      j.1 ≠ k.1 := by
-  obtain ⟨hsz, hst⟩ := contactSearch_step fn K cells hF
-  have hs : (contactSearch fn K cells).size = cells.length := hsz.trans (size_reset K cells)
+/-- one `set_coupled_node_and_min_distance(q, d)` on the node slot `(w.1, w.2.1)` -/
+def setCoupW (s : Array (Mut R)) (w : Nat × Nat × (Nat × Nat) × R) : Array (Mut R) :=
+  s.modify w.1 fun m => { m with coup := m.coup.setIfInBounds w.2.1 (some w.2.2.1), sqd := m.sqd.setIfInBounds w.2.1 w.2.2.2 }
+
+/-- **schedule independence**: ANY sequence of `set_coupled_node_and_min_distance` calls, each on an `ok` slot with an `ok` slot of
+    another cell — in particular any interleaving of the (locked, hence atomic) calls that several threads make from
+    `resolve_contact`, whatever they read — is a `Step` -/
+theorem step_writes (ok : Nat → Nat → Prop) (ws : List (Nat × Nat × (Nat × Nat) × R))
+    (h : ∀ w ∈ ws, ok w.1 w.2.1 ∧ ok w.2.2.1.1 w.2.2.1.2 ∧ w.2.2.1.1 ≠ w.1) (st : Array (Mut R)) :
+    Step ok st (ws.foldl setCoupW st) :=
+  step_foldl ok setCoupW ws (fun w hw s => step_setCoup ok s w.1 w.2.1 w.2.2.1 w.2.2.2 (h w hw).1 (h w hw).2.1 (h w hw).2.2) st
+
+/-- every table reached by a `Step` from the reset table satisfies the statement of `SearchOK` -/
+theorem searchTable_T_of_step (K : Consts R) (cells : List (Cell R)) (st : Array (Mut R))
+    (hstep : Step (okT cells) (cells.map (resetMut K)).toArray st) (k j : Nat × Nat)
+    (n : Coupling.CNode R) (hk : Coupling.get (toPop (writeMut cells st)) k = some n) (hc : n.coup = some j) :
+    ∃ m : Coupling.CNode R, Coupling.get (toPop (writeMut cells st)) j = some m ∧ m.used = true ∧ j.1 ≠ k.1 := by
+  obtain ⟨hsz, hst⟩ := hstep
+  have hs : st.size = cells.length := hsz.trans (size_reset K cells)
   rw [get_toPop_writeMut cells _ hs] at hk ⊢
   cases hck : cells[k.1]? with
   | none => rw [hck] at hk; cases hk
@@ -348,11 +380,45 @@ theorem searchTable_T (fn : Fn R) (K : Consts R) (cells : List (Cell R)) (hF : F
     · simp only [Option.some.injEq] at hk
       subst hk
       simp only at hc
-      rcases hst k.1 k.2 with e | ⟨_, q, hq, ⟨c2, hc2, hlt⟩, hne⟩
+      rcases hst k.1 k.2 with e | ⟨_, q, hq, ⟨c2, hc2, hlt, _⟩, hne⟩
       · rw [e, coupOf_reset] at hc; cases hc
       · rw [hq, Option.some.injEq] at hc
         subst hc
         exact ⟨_, by rw [hc2, Option.bind_some, if_pos hlt], rfl, hne⟩
+    · cases hk
+
+/-- **what the modelled search hands to the tail loops (Model/Tissue.lean)**: every coupling in the table names an existing
+    slot of ANOTHER cell -/
+theorem searchTable_T (fn : Fn R) (K : Consts R) (cells : List (Cell R)) (hF : FacesInRange cells) (k j : Nat × Nat)
+    (n : Coupling.CNode R) (hk : Coupling.get (toPop (writeMut cells (contactSearch fn K cells))) k = some n)
+    (hc : n.coup = some j) :
+    ∃ m : Coupling.CNode R, Coupling.get (toPop (writeMut cells (contactSearch fn K cells))) j = some m ∧ m.used = true ∧
+      j.1 ≠ k.1 :=
+  searchTable_T_of_step K cells _ (contactSearch_step fn K cells hF) k j n hk hc
+
+/-- a coupling in the table of the search joins two EPITHELIAL cells (`resolve_contact` couples under
+    `c1->get_cell_type_id() == 0 && c2->get_cell_type_id() == 0` only) -/
+theorem searchTable_T_kinds (fn : Fn R) (K : Consts R) (cells : List (Cell R)) (hF : FacesInRange cells) (k j : Nat × Nat)
+    (n : Coupling.CNode R) (hk : Coupling.get (toPop (writeMut cells (contactSearch fn K cells))) k = some n)
+    (hc : n.coup = some j) :
+    ∃ c1 c2, cells[k.1]? = some c1 ∧ cells[j.1]? = some c2 ∧ c1.k.kind = 0 ∧ c2.k.kind = 0 := by
+  obtain ⟨hsz, hst⟩ := contactSearch_step fn K cells hF
+  have hs : (contactSearch fn K cells).size = cells.length := hsz.trans (size_reset K cells)
+  rw [get_toPop_writeMut cells _ hs] at hk
+  cases hck : cells[k.1]? with
+  | none => rw [hck] at hk; cases hk
+  | some c =>
+    rw [hck, Option.bind_some] at hk
+    split at hk
+    · simp only [Option.some.injEq] at hk
+      subst hk
+      simp only at hc
+      rcases hst k.1 k.2 with e | ⟨⟨c1, hc1, _, hk1⟩, q, hq, ⟨c2, hc2, _, hk2⟩, _⟩
+      · rw [e, coupOf_reset] at hc; cases hc
+      · rw [hq, Option.some.injEq] at hc
+        subst hc
+        rw [hck] at hc1
+        exact ⟨c1, c2, hc1, hc2, hk1, hk2⟩
     · cases hk
 
 theorem toPop_used (cells : List (Cell R)) (k : Nat × Nat) (n : Coupling.CNode R) (hk : Coupling.get (toPop cells) k = some n) :
@@ -371,8 +437,8 @@ theorem toPop_used (cells : List (Cell R)) (k : Nat × Nat) (n : Coupling.CNode 
 section released
 open Simu.TissueR Simu.Remesh
 
-/-- the slot exists and `is_used()` -/
-def okR (cells : List (CellTR R)) (ci ni : Nat) : Prop := ∃ c, cells[ci]? = some c ∧ usedN c.mesh ni = true
+/-- the slot exists and `is_used()`, in an epithelial cell -/
+def okR (cells : List (CellTR R)) (ci ni : Nat) : Prop := ∃ c, cells[ci]? = some c ∧ usedN c.mesh ni = true ∧ c.k.kind = 0
 
 /-- the corners of every USED face are USED node slots of its cell (first clause of `Remesh.liveCell`, part of
     `PipelineR.meshOk` / `TissueR.cellMeshOk`) -/
@@ -399,13 +465,14 @@ theorem facesLive_of_liveCell (cells : List (CellTR R)) (h : ∀ c ∈ cells, li
     simp only [Bool.not_true, Bool.false_or, fUsed, Bool.and_eq_true] at h0
     exact ⟨h0.1.1, h0.1.2, h0.2⟩
 
-theorem usedAt_ok (cells : List (CellTR R)) (k : Nat × Nat) (h : usedAt (usedArr cells) k = true) : okR cells k.1 k.2 := by
+theorem usedAt_ok (cells : List (CellTR R)) (k : Nat × Nat) (h : usedAt (usedArr cells) k = true) :
+    ∃ c, cells[k.1]? = some c ∧ usedN c.mesh k.2 = true := by
   unfold usedAt usedArr at h
   simp only [List.getElem?_toArray, List.getElem?_map] at h
   cases hc : cells[k.1]? with
   | none => rw [hc] at h; simp at h
   | some c =>
-    refine ⟨c, hc, ?_⟩
+    refine ⟨c, rfl, ?_⟩
     rw [hc] at h
     simp only [Option.map_some, Array.getElem?_map] at h
     unfold usedN
@@ -428,7 +495,13 @@ theorem facesOk_R (cells : List (CellTR R)) (h : FacesLive cells) :
       rw [this, List.getElem?_toArray] at hf
       exact List.mem_of_getElem? hf
     obtain ⟨h1, h2, h3⟩ := h c (List.mem_of_getElem? hc) f hmem
-    exact ⟨⟨c, hc, h1⟩, ⟨c, hc, h2⟩, ⟨c, hc, h3⟩⟩
+    intro hk0
+    exact ⟨⟨c, hc, h1, hk0⟩, ⟨c, hc, h2, hk0⟩, ⟨c, hc, h3, hk0⟩⟩
+
+theorem geoR_kind (cells : List (CellTR R)) (ci : Nat) (c : CellTR R) (g : Geo R) (hc : cells[ci]? = some c)
+    (hg : ((cells.map view).map Cell.geo).toArray[ci]? = some g) : g.k = c.k := by
+  rw [List.getElem?_toArray, List.getElem?_map, List.getElem?_map, hc, Option.map_some, Option.map_some, Option.some.injEq] at hg
+  rw [← hg]; rfl
 
 /-- **the whole search of Model/TissueR.lean is a `Step`** from the table in which the USED nodes were reset -/
 theorem contactSearchR_step (fn : Fn R) (K : Consts R) (cells : List (CellTR R)) (hF : FacesLive cells) :
@@ -439,8 +512,9 @@ theorem contactSearchR_step (fn : Fn R) (K : Consts R) (cells : List (CellTR R))
   intro k hk s
   split
   · rename_i hu
-    exact nodeSearch_step _ fn _ _ _ _ s k (usedAt_ok cells k hu) (facesOk_R cells hF)
-      (fun gid hg q hq => gridCandidates_other fn K (cells.map view) k.1 k.2 gid hg q hq)
+    obtain ⟨c, hc, huc⟩ := usedAt_ok cells k hu
+    exact nodeSearch_step _ fn _ _ _ _ s k (fun g1 hg1 hk0 => ⟨c, hc, huc, by rw [← geoR_kind cells k.1 c g1 hc hg1]; exact hk0⟩)
+      (facesOk_R cells hF) (fun gid hg q hq => gridCandidates_other fn K (cells.map view) k.1 k.2 gid hg q hq)
   · exact Step.refl _ s
 
 /-- the table in front of the search: a USED slot carries no coupling, a released slot carries what it carried -/
@@ -529,13 +603,38 @@ theorem searchTable_R (fn : Fn R) (K : Consts R) (cells : List (CellTR R)) (hF :
     · simp only [Option.some.injEq] at hk
       subst hk
       simp only at hc hu
-      rcases hst k.1 k.2 with e | ⟨_, q, hq, ⟨c2, hc2, hu2⟩, hne⟩
+      rcases hst k.1 k.2 with e | ⟨_, q, hq, ⟨c2, hc2, hu2, _⟩, hne⟩
       · rw [e, coupOf_resetR, hck] at hc
         simp only [hu, if_true] at hc
         cases hc
       · rw [hq, Option.some.injEq] at hc
         subst hc
         exact ⟨_, by rw [hc2, Option.bind_some, if_pos (usedN_lt hu2)], hu2, hne⟩
+    · cases hk
+
+theorem searchTable_R_kinds (fn : Fn R) (K : Consts R) (cells : List (CellTR R)) (hF : FacesLive cells) (k j : Nat × Nat)
+    (n : Coupling.CNode R) (hk : Coupling.get (toPopR (writeMutR cells (contactSearchR fn K cells))) k = some n)
+    (hu : n.used = true) (hc : n.coup = some j) :
+    ∃ c1 c2, cells[k.1]? = some c1 ∧ cells[j.1]? = some c2 ∧ c1.k.kind = 0 ∧ c2.k.kind = 0 := by
+  obtain ⟨hsz, hst⟩ := contactSearchR_step fn K cells hF
+  have hs : (contactSearchR fn K cells).size = cells.length := hsz.trans (size_resetR K cells)
+  rw [get_toPopR_writeMutR cells _ hs] at hk
+  cases hck : cells[k.1]? with
+  | none => rw [hck] at hk; cases hk
+  | some c =>
+    rw [hck, Option.bind_some] at hk
+    split at hk
+    · simp only [Option.some.injEq] at hk
+      subst hk
+      simp only at hc hu
+      rcases hst k.1 k.2 with e | ⟨⟨c1, hc1, _, hk1⟩, q, hq, ⟨c2, hc2, _, hk2⟩, _⟩
+      · rw [e, coupOf_resetR, hck] at hc
+        simp only [hu, if_true] at hc
+        cases hc
+      · rw [hq, Option.some.injEq] at hc
+        subst hc
+        rw [hck] at hc1
+        exact ⟨c1, c2, hc1, hc2, hk1, hk2⟩
     · cases hk
 
 /-- **the search never writes a released slot**: after the search a released slot carries the coupling it carried before
@@ -557,7 +656,7 @@ theorem searchTable_R_released (fn : Fn R) (K : Consts R) (cells : List (CellTR 
       subst hk
       simp only at hu ⊢
       refine ⟨c, rfl, hlt, hu, ?_⟩
-      rcases hst k.1 k.2 with e | ⟨⟨c2, hc2, hu2⟩, _⟩
+      rcases hst k.1 k.2 with e | ⟨⟨c2, hc2, hu2, _⟩, _⟩
       · rw [e, coupOf_resetR, hck]
         simp only [hu]
         rfl
